@@ -538,3 +538,10 @@ def run(ctx, R):
         RPM + ':_has_child_providers',
         'placement.objects.consumer:delete_consumers_if_no_allocations'])
     R.count('R8.6', n, 3)
+    # R8.7: the unconditional Consumer.delete() of the handlers' cleanup is
+    # licensed only by a truthful created-new-consumer flag (otherwise a
+    # failing request removes the consumer another request's committed
+    # allocations refer to)
+    from psa.rules import c12
+    n7 = C.reuse_obligations(ctx, R, c12.r128, 'R8.7')
+    R.count('R8.7', n7, 1)
